@@ -157,6 +157,11 @@ def make(case):
     if case["route"] == "parse":
         return stix2.parse(case["data"], allow_custom=case.get("allow", False))
     cls = find_class(case["cid"])
+    if case["route"] == "construct_positional":
+        # Bundle(*members, **rest)
+        data = dict(case["data"])
+        members = data.pop("objects", [])
+        return cls(*members, allow_custom=case.get("allow", False), **data)
     return cls(allow_custom=case.get("allow", False), **case["data"])
 
 
@@ -594,6 +599,7 @@ def observe_case(case):
         return observe(case)
     plain = {k: v for k, v in case.items() if k != "twice"}
     r1 = observe(plain)
+    r1b = observe(plain)        # immediately again: what differs already here (clock, fresh identifiers) is not compared
     for b in tw.get("between", []):
         try:
             make(b)
@@ -602,12 +608,12 @@ def observe_case(case):
     r2 = observe(plain)
     diffs = []
     for k in ("created", "err", "cls", "hc"):
-        if r1.get(k) != r2.get(k):
+        if r1.get(k) == r1b.get(k) and r1.get(k) != r2.get(k):
             diffs.append({"what": k, "first": r1.get(k), "second": r2.get(k)})
-    if r1.get("created") and r2.get("created") and tw.get("compare_text"):
-        for o1, o2 in zip(r1["obs"], r2["obs"]):
+    if r1.get("created") and r1b.get("created") and r2.get("created"):
+        for o1, o1b, o2 in zip(r1["obs"], r1b["obs"], r2["obs"]):
             for k in ("text", "ser_err", "parse_err", "equal", "same_class"):
-                if o1.get(k) != o2.get(k):
+                if o1.get(k) == o1b.get(k) and o1.get(k) != o2.get(k):
                     diffs.append({"what": k, "opts": o1["opts"], "first": str(o1.get(k))[:200], "second": str(o2.get(k))[:200]})
                     break
     r1["repeat_diffs"] = diffs[:5]
